@@ -55,6 +55,8 @@ def register(reg):
         # a new stack is referenced only by its creator until it is stored somewhere or passed on (escape analysis of the engine)
         v = new_lib(eng, st, "AsyncExitStack", owned=True)
         st.heap["g:xs_len"] = z3.Store(st.heap["g:xs_len"], Val.a(v.t), z3.IntVal(0))
+        if "g:xs_owner" in st.heap:
+            st.heap["g:xs_owner"] = z3.Store(st.heap["g:xs_owner"], Val.a(v.t), VNone)      # not (yet) the stack of any context
         return [Res(st, v)]
     reg.ext_calls["contextlib.AsyncExitStack"] = mk_stack
 
@@ -146,10 +148,12 @@ def register(reg):
             if not eng.feasible(sn):
                 continue
             cur = [(sn, exc)]
+            # the entries are those on the stack when the unwinding begins (A-XS: the stack pops its own deque; the depth is fixed above)
+            items0 = z3.Select(sn.heap["g:xs_item"], s)
             for i in range(n - 1, -1, -1):
                 nxt = []
                 for (s1, e1) in cur:
-                    nxt.extend(run_entry(eng, s1, z3.Select(z3.Select(s1.heap["g:xs_item"], s), i), e1, f"{anchor}/entry{i}"))
+                    nxt.extend(run_entry(eng, s1, z3.Select(items0, i), e1, f"{anchor}/entry{i}"))
                 cur = nxt
             for (s1, e1) in cur:
                 s1.heap["g:xs_len"] = z3.Store(s1.heap["g:xs_len"], s, z3.IntVal(0))
